@@ -47,6 +47,14 @@ def main():
                 subprocess.run(["tar", "-x", "-C", os.path.join(tmp, "repo")], input=ar.stdout, check=True)
             else:
                 shutil.copytree("/repo/src", os.path.join(tmp, "repo", "src"), ignore=shutil.ignore_patterns("__pycache__", "*.egg-info"))
+            base_sigs = {}
+            if meta.get("base_commit"):
+                # a later repair fixed, in that older tree, defects the current checks also report: the signatures of the unpatched
+                # base tree are taken first, and only signatures that the seeded change adds to them count
+                for c in [meta["property"]] + [c for c in meta.get("also_run", [])]:
+                    env = dict(os.environ, VERIF_REPO=os.path.join(tmp, "repo"), VERIF_TIER=tier)
+                    p0 = subprocess.run([os.path.join(HERE, "check"), c, "--tier", tier], env=env, capture_output=True, text=True)
+                    base_sigs[c] = {l.split("sig=")[1].split(" ")[0] for l in p0.stdout.splitlines() if "detail: sig=" in l}
             r = subprocess.run(["patch", "-p1", "-s", "-d", os.path.join(tmp, "repo"), "-i", os.path.join(d, "patch.diff")], capture_output=True, text=True)
             if r.returncode != 0:
                 rows.append((sid, meta["property"], "-", "PATCH DOES NOT APPLY", r.stdout[-200:]))
@@ -57,6 +65,12 @@ def main():
                 p = subprocess.run([os.path.join(HERE, "check"), c, "--tier", tier], env=env, capture_output=True, text=True)
                 sigs = sorted({l.split("sig=")[1].split(" ")[0] for l in p.stdout.splitlines() if "detail: sig=" in l})
                 verdict = {0: "missed", 1: "CAUGHT", 2: "harness error"}.get(p.returncode, f"exit {p.returncode}")
+                if c in base_sigs:
+                    sigs = sorted(set(sigs) - base_sigs[c])
+                    if p.returncode == 1 and not sigs:
+                        verdict = "missed"
+                    elif sigs:
+                        sigs = ["(added to the %d signatures of the base tree %s:)" % (len(base_sigs[c]), meta["base_commit"])] + sigs
                 if c != meta["property"] and p.returncode == 0:
                     continue
                 rows.append((sid, meta["property"], c, verdict, "; ".join(sigs)[:300]))
